@@ -514,6 +514,35 @@ func crCases(c *core.Ctx) ([]json.RawMessage, error) {
 		if err := mkAllOf("AllOf_crash_choice.cfg", "FALSE", "TRUE"); err != nil {
 			return nil, err
 		}
+		// heirs with many own keys (AllOfWide.tla), their text beginning well after the start of the file: offsets of
+		// inherited properties belong to another text than the heir's own
+		{
+			var lines []string
+			res, err := tlc.Run(tlc.Opts{Module: "AllOfWide", Cfg: "AllOfWide.cfg", Workers: 4, OnLine: func(l string) { lines = append(lines, l) }})
+			res.Cleanup()
+			if err != nil {
+				return nil, err
+			}
+			if err := res.MustOK(); err != nil {
+				return nil, err
+			}
+			c.AddTLC("AllOfWide.cfg", res)
+			sort.Strings(lines)
+			kv := map[string]string{}
+			for i, l := range lines {
+				var cs aoCase
+				if json.Unmarshal([]byte(l), &cs) != nil {
+					continue
+				}
+				types := map[string]string{}
+				for _, t := range cs.Types {
+					types["@"+t.Name] = aoText(t.D, kv)
+				}
+				lead := []string{"", "# a comment before the schema, longer than the texts of the types it inherits from\n\n", "\n\n\n\n\n\n\n\n\n\n\n\n\n\n\n\n\n\n\n\n\n\n\n\n"}[i%3]
+				crAdd(&out, seen, crCase{Entry: "project", Text: []byte(lead + aoText(cs.Root, kv)), Types: types, Src: "AllOfWide"})
+				nk++
+			}
+		}
 		extra, res, err := smExtraCases(c)
 		if err != nil {
 			return nil, err
